@@ -378,10 +378,16 @@ func Check[C any](t *testing.T, id, name, rule string, gen func(*rapid.T) C, run
 	ok := t.Run(name, func(t *testing.T) { rapid.Check(t, prop) })
 	if !ok {
 		if lastFail == nil {
-			lastFail = &violationFile{ID: id, Check: name, Key: "harness:" + name, Msg: "rapid reported a failure without an oracle violation (generator/harness error; see log)"}
+			// rapid/testing reported a failure without an oracle violation: a
+			// generator/harness error or a race-detector report. Not a property
+			// violation by itself; the driver decides (race attribution or exit 2).
+			mu.Lock()
+			s.Extra["failed_without_oracle"] = true
+			mu.Unlock()
+		} else {
+			s.Violation = lastFail
+			writeViolation(lastFail)
 		}
-		s.Violation = lastFail
-		writeViolation(lastFail)
 	}
 	flush()
 }
